@@ -18,6 +18,9 @@ Decides:
                never by the spelling or kind of the word itself (shared with C14).
  R restore (b)     fallback / fallback_with put the pre-attempt state back when they absorb a failure (NonStrictPos is raised after the word was taken).
  K after `--`      no typo suggestion is computed for a PosWord on any route into suggest(); Comp::is_pos excludes flags, arguments and commands.
+ T context free   the tokenizer never reads back the items collected so far (which item is the separator is decided as it is met; shared with C05);
+ S first_item      Meta::first_item looks through Strict like through any other wrapper (shared with C12); C dash test: Complete::complete consults the
+                        spelling of the typed word only while pos_only is false.
 Does not decide: which candidates completion offers (C14)."""
 import re
 from core import *
